@@ -66,6 +66,11 @@ def special_samples(rng, n):
     idx = rng.choice(n, size=k, replace=False)
     pool = np.array([5e-324, -5e-324, 2.2e-308, 1e-300, -1e300, 1e300, -0.0, 0.0, 1 / 3, np.pi, 1.7976931348623157e308])
     x[idx] = rng.choice(pool, size=k)
+    if rng.random() < 0.3:
+        # markers some digitisers / conversions leave in a record: overflow (+-inf) and gaps (NaN); a recording that
+        # holds them is persisted like any other
+        j = rng.choice(n, size=min(n, 3), replace=False)
+        x[j] = rng.choice(np.array([np.inf, -np.inf, np.nan]), size=j.size)
     return x
 
 
@@ -164,7 +169,7 @@ def fam_persist(ctx, rng):
     hist = apply_history(rng, rec, 0 if wild else int(rng.integers(0, 9)))
     info = dict(n=n, dt=dt, wild_samples=bool(wild), history=[h[0] for h in hist])
     ctx.describe(**info, degrees_from_north=rec.degrees_from_north, history_full=hist)
-    if not all(np.all(np.isfinite(a)) for a in arrays_of(rec)):
+    if hist and not all(np.all(np.isfinite(a)) for a in arrays_of(rec)):
         ctx.count("history_overflowed_not_judged")
         return
     d = tempfile.mkdtemp(prefix="c18-", dir=os.environ.get("HVMON_SCRATCH"))
